@@ -12,7 +12,7 @@ Proof.
   intros E. unfold tstep, enabled in *.
   destruct i as [|[|[|i]]]; cbn [thr] in *; [| | |discriminate].
   all: dth s.
-  all: destruct ins; unfold exec, fire, deliver.
+  all: destruct ins; unfold exec, fire, fire2, deliver.
   all: red1; dflags s; red1.
   all: try (dpay s; red1).
   all: try match goal with g : bool |- _ => destruct g; red1 end.
@@ -130,13 +130,19 @@ Qed.
 Lemma final_events c s seq : valid c = true -> reachable c s -> terminal s ->
   map strip (map (ev_line c seq) (log s)) = expected_events c (payload s).
 Proof.
-  intros V R T. destruct (terminal_final c s V R T) as [_ _ _ _ F _ _ _ ND NC _ _].
-  destruct (loginv_reachable c s V R) as (t1 & t2 & t3 & L).
-  rewrite L, F, ND, NC. unfold atomic_cb, cv, is_conv, expected, expected_events, cb_log, conv_log, hb, hbn.
-  destruct (c_ad c); cbn [has_cb has_helper has_functor b2n andb Nat.eqb app map];
+  intros V R T. pose proof (terminal_final c s V R T) as FF.
+  pose proof (f_fired c s FF) as F. pose proof (f_ndeliv c s FF) as ND. pose proof (f_nconv c s FF) as NC.
+  pose proof (f_fired2 c s FF) as F2. pose proof (f_payload2 c s FF) as P2.
+  pose proof (j_cfg c s (inv_reachable c s V R)) as Jcfg.
+  destruct (loginv_reachable c s V R) as (t1 & t2 & t3 & t4 & L).
+  rewrite L, F, ND, NC, F2, P2. unfold atomic_cb, cv, is_conv, expected, expected_events, cb_log, cb2_log, conv_log, hb, hbn, re, kind_re in *.
+  destruct (c_ad c) eqn:AD; destruct (c_re c) as [kr|] eqn:RE;
+    try (specialize (Jcfg eq_refl); discriminate Jcfg);
+    cbn [has_cb has_helper has_functor b2n andb Nat.eqb app map];
+    rewrite ?app_nil_r;
     try (destruct (payload s); cbn [isv Nat.eqb app map ev_line snd fst strip okind conv_result]; reflexivity);
     try (rewrite !map_app; cbn [map ev_line snd fst strip app]; destruct (has_sd (c_stor c)); cbn [map ev_line snd fst strip app]; reflexivity).
-  all: destruct (isv (payload s)); cbn [Nat.eqb app]; destruct (has_sd (c_stor c)); cbn [map ev_line snd fst strip app]; reflexivity.
+  all: destruct (isv (payload s)); cbn [Nat.eqb app]; try (destruct (has_sd (c_stor c))); cbn [map ev_line snd fst strip app]; reflexivity.
 Qed.
 
 (* ... and so are the summary lines *)
@@ -144,7 +150,7 @@ Lemma final_summary c s : valid c = true -> reachable c s -> terminal s ->
   final_lines c s = expected_final c (payload s) (retz (ret1 s)) (retz (ret2 s)).
 Proof.
   intros V R T. pose proof (terminal_final c s V R T) as [_ _ _ _ F FR AL NR ND NC O _].
-  pose proof (fires_exactly_once c s V R T) as NCB. unfold ncb in NCB.
+  pose proof (fires_exactly_once c s V R T) as NCB. unfold ncb, re in NCB.
   pose proof (i_nores c s (inv_reachable c s V R)) as I14.
   unfold final_lines, expected_final, zlen. rewrite NCB, FR, AL. unfold hb, hbn, expected in *.
   replace (Z.of_nat (b2n (has_helper (c_ad c))) - Z.of_nat (b2n (has_helper (c_ad c))))%Z with 0%Z by lia.
@@ -154,7 +160,7 @@ Proof.
     - destruct (O eq_refl) as [O1 O2]. rewrite O1, O2. reflexivity.
     - unfold cv in NR. rewrite C in NR. cbn [b2n] in NR. rewrite NR in I14. destruct (oslot s); cbn [rdy] in I14; try reflexivity; discriminate. }
   rewrite X.
-  destruct (has_helper (c_ad c)), (has_cb (c_ad c)); cbn [b2n Z.of_nat]; reflexivity.
+  destruct (has_helper (c_ad c)), (has_cb (c_ad c)), (c_re c); cbn [b2n Z.of_nat Nat.add]; reflexivity.
 Qed.
 
 
@@ -174,7 +180,7 @@ Proof.
   - unfold rets_ok, has_k2 in *. destruct (c_k2 c) as [k2|] eqn:K2.
     + cbn [b2n] in I33.
       assert (PC : prim_calls c = true).
-      { unfold prim_calls. unfold valid in V. rewrite K2 in *. apply andb_prop in V. destruct V as [V _].
+      { unfold prim_calls. unfold valid in V. rewrite K2 in *. apply andb_prop in V. destruct V as [V _]. apply andb_prop in V. destruct V as [V _].
         apply andb_prop in V. destruct V as [_ V]. apply andb_prop in V. destruct V as [V _]. rewrite V.
         cbn [orb andb]. destruct (c_k c); reflexivity. }
       rewrite PC in I32. cbn [b2n] in I32.
@@ -263,3 +269,44 @@ Proof.
   unfold FL, expected_final. cbn [existsb]. unfold headz.
   destruct (c_stor c) as [|[|[|[|n]]]]; cbn; destruct (is_conv c); reflexivity.
 Qed.
+
+(* ---------- the statements of Properties_C18.v, bundled (each Print Assumptions there walks the whole development) ---------- *)
+Theorem progress_all c :
+  valid c = true ->
+  (forall s, reachable c s -> terminal s -> th0 s = [] /\ th1 s = [] /\ th2 s = []) /\
+  (forall sched fuel, 90 <= fuel -> terminal (fst (run_sched c fuel (init c) sched []))) /\
+  (forall fuel s sched tr, reachable c s -> reachable c (fst (run_sched c fuel s sched tr))).
+Proof.
+  intros V. split; [|split].
+  - intros s R T. apply (terminal_done c); assumption.
+  - intros sched fuel F. apply every_schedule_terminates; assumption.
+  - intros fuel s sched tr R. apply run_sched_reachable. exact R.
+Qed.
+
+Theorem fires_once_all c s : valid c = true -> reachable c s ->
+  (ncb s <= 1 + re c /\ nfire s <= 1 /\ nfire2 s <= re c) /\ (terminal s -> ncb s = b2n (has_cb (c_ad c)) + re c).
+Proof. intros V R. split; [apply (fires_at_most_once c); assumption|intros T; apply fires_exactly_once; assumption]. Qed.
+
+Theorem conv_all c s : valid c = true -> reachable c s ->
+  (nores s <= 1 /\ nconv s <= b2n (isv (payload s)) /\ ndeliv s <= nores s /\
+   (oslot s = SReady -> opayload s = conv_result c (payload s))) /\
+  (is_conv c = true -> terminal s ->
+   oslot s = SReady /\ opayload s = conv_result c (wout c s) /\ nores s = 1 /\ ndeliv s = 1 /\
+   nconv s = b2n (isv (wout c s)) /\
+   exists t1 t2, log s = conv_log c (wout c s) t1 ++ [(t2, EODeliv (conv_result c (wout c s)))]).
+Proof. intros V R. split; [apply (conv_safe c); assumption|intros C T; apply conv_final; assumption]. Qed.
+
+Theorem callbacks_all c s : valid c = true -> reachable c s ->
+  ((ncb s <= 1 + re c /\ nfire s <= 1 /\ nfire2 s <= re c) /\ (terminal s -> ncb s = b2n (has_cb (c_ad c)) + re c)) /\
+  (forall t o al fr, In (t, ECb o al fr) (log s) ->
+     ((o = payload s /\ o = wout c s) \/ (re c = 1 /\ o = payload2 s /\ o = out_of (kind_re c))) /\ al = hb c /\ fr = 0).
+Proof.
+  intros V R. split; [apply fires_once_all; assumption|]. intros t o al fr H. apply (right_outcome c s t); assumption.
+Qed.
+
+Theorem release_all c s : valid c = true -> reachable c s ->
+  (frees s <= allocs s /\ allocs s = hb c /\
+   (frees s >= 1 -> atomic_cb c = true -> exists pre post t, log s = pre ++ cb_log c (payload s) t ++ post) /\
+   (terminal s -> frees s = allocs s)) /\
+  (terminal s -> Final c s).
+Proof. intros V R. split; [apply released_once; assumption|intros T; apply terminal_final; assumption]. Qed.
